@@ -143,3 +143,31 @@ def _phdr_consts(prog):
                       'constants stored to %s are %s; Elf32 needs %d and Elf64 (selected for some CPUs) needs %d' % (field, sorted(set(vals)), want32, want64) if bad else '',
                       'constants %s' % sorted(set(vals))))
     return out
+
+
+def strtab_pair(prog):
+    """STRTAB-PAIR: the ELF writer keeps the offset of the next string-table entry by adding strlen() of what it has just
+    written: in a block of fileio/write_elf.cpp that writes a string with FileIo::write_string(X) and then uses strlen(Y)
+    in an offset computation, X and Y are the same expression (otherwise every later st_name points into the wrong place)."""
+    obs = []
+    for fn in prog.functions(lambda f: f.file == 'fileio/write_elf.cpp' and f.blocks):
+        for bid, b in fn.blocks.items():
+            last = None
+            for e in b['e']:
+                n = fn.nodes.get(e)
+                if n is None or n['k'] not in ('CallExpr', 'CXXMemberCallExpr'):
+                    continue
+                q = (callee(n) or '').split('(')[0]
+                if q == 'FileIo::write_string':
+                    last = n
+                elif q == 'strlen' and last is not None:
+                    x = show(strip(call_args(last)[0], casts=True))
+                    y = show(strip(call_args(n)[0], casts=True))
+                    ok = x == y
+                    obs.append(Ob('STRTAB-PAIR', fn.file, n['l'], fn.q, 'strlen(%s)' % y[:30], DISCHARGED if ok else VIOLATED,
+                                  '' if ok else 'the string written is `%s` but the offset of the next entry is advanced by strlen(%s): every '
+                                  'following symbol name offset is off by the difference' % (x, y), 'same expression written and measured'))
+                    last = None
+    if len(obs) < 2:
+        raise AnalysisBroken('STRTAB-PAIR: only %d write_string/strlen pairs in write_elf.cpp' % len(obs))
+    return RuleResult('STRTAB-PAIR', obs, 2, {})
